@@ -807,4 +807,91 @@ def Cfg.updateFromText (c : Cfg) (text source : String) (allowNew caseSensitive 
     let r := c.updateMany false (fileUpdates source allowNew raw) []
     (r.1, r.2.1)
 
+/-! #### `update_from_file`: the `DEFAULT` section and the special sections `__replace__` / `__vars__` -/
+
+/-- the value of an option as `ConfigParser` hands it out: the lines joined by newlines, trailing blanks removed -/
+def rawValue (vs : List (List Char)) : String := String.ofList (rstripBlanks (joinLines vs))
+
+/-- `[DEFAULT]`: its options are seen in every other section — `opts = section.copy(); opts.update(defaults)`: the section's own
+options first (with their own values), then the default options the section does not have — and `sections()` does not list it -/
+def applyDefaults (raw : List (String × List RawOpt)) : List (String × List RawOpt) :=
+  match dget? raw "DEFAULT" with
+  | none => raw
+  | some dflt =>
+    (raw.filter (fun so => so.1 ≠ "DEFAULT")).map fun so =>
+      (so.1, so.2 ++ dflt.filter (fun d => !(so.2.map (·.key)).contains d.key))
+
+/-- `{k: v for k, v in cfg_parser[name].items()}` of a special section; a key without `=` has the value `None` -/
+def sectionItems (opts : List RawOpt) : List (String × Option String) :=
+  opts.map fun o => (String.ofList o.key, o.value.map rawValue)
+
+def derase {κ ν} [DecidableEq κ] (d : List (κ × ν)) (k : κ) : List (κ × ν) := d.filter (fun p => p.1 ≠ k)
+
+/-- `update_vars` with the items of `__vars__`: a variable set to `None` is from then on unknown to `_replace`
+(`replace_vars.get(var) is None`), which is modelled by removing it -/
+def Cfg.updateVarsOpt (c : Cfg) (d : List (String × Option String)) : Cfg :=
+  { c with vars := d.foldl (fun acc kv => match kv.2 with | some x => dset acc kv.1 x | none => derase acc kv.1) c.vars }
+
+/-- `_replace(text, replace_vars)` with the table of `__replace__` (no default) -/
+def replaceIn (rv : List (String × String)) (s : String) : Except RErr String :=
+  (replaceVars rv none 64 s.toList).map String.ofList
+
+/-- `_replace(value, replace_vars).replace("\n", " ").strip()` -/
+def joinValueR (rv : List (String × String)) (vs : List (List Char)) : Except RErr String :=
+  (replaceIn rv (rawValue vs)).map fun s =>
+    String.ofList (stripBlanks (s.toList.map (fun c => if c = '\n' then ' ' else c)))
+
+/-- the updates one parsed section issues, with the `__replace__` table applied to keys and values (not to the
+metadata); a replacement that raises ends the loop -/
+def sectionUpdatesR (rv : List (String × String)) (source : String) (allowNew : Bool) (cfgSection : String)
+    (opts : List RawOpt) : List (Except RErr (String × Upd)) :=
+  let pd := partDunder cfgSection.toList
+  if pd.1.isEmpty then [] else
+  opts.filterMap fun o =>
+    if o.key.contains ':' then none else
+    some (
+      match replaceIn rv (String.ofList o.key) with
+      | .error e => .error e
+      | .ok key =>
+        let val : Except RErr String := match o.value with | none => .ok "None" | some vs => joinValueR rv vs
+        match val with
+        | .error e => .error e
+        | .ok value =>
+          .ok (key, ⟨String.ofList pd.1, key, value,
+            if pd.2.1 then some (String.ofList pd.2.2) else none, source, metaOf opts o.key, allowNew⟩))
+
+def fileUpdatesR (rv : List (String × String)) (source : String) (allowNew : Bool)
+    (raw : List (String × List RawOpt)) : List (Except RErr (String × Upd)) :=
+  raw.flatMap fun so => sectionUpdatesR rv source allowNew so.1 so.2
+
+/-- the results up to the first one that raised -/
+def takeOk {ε α} : List (Except ε α) → List α × Option ε
+  | [] => ([], none)
+  | .error e :: _ => ([], some e)
+  | .ok a :: t => (a :: (takeOk t).1, (takeOk t).2)
+
+inductive FileErr
+  | cfg (e : Err)
+  | replace (e : RErr)
+  deriving Repr, DecidableEq
+
+/-- the `__replace__` table: `{k: v for k, v in cfg_parser["__replace__"].items()}`; keys without value are unknown -/
+def replaceTable (raw : List (String × List RawOpt)) : List (String × String) :=
+  match dget? raw "__replace__" with
+  | some os => (sectionItems os).filterMap (fun kv => kv.2.map (fun v => (kv.1, v)))
+  | none => []
+
+/-- `update_from_file(path, allow_new, case_sensitive)` for a file with the given text, with the `DEFAULT` section, the
+`__replace__` table and the `__vars__` section (which is applied first, and also when an entry is refused later) -/
+def Cfg.updateFromFile (c : Cfg) (text source : String) (allowNew caseSensitive : Bool) :
+    Except IniErr (Cfg × Option FileErr) :=
+  (readIniRaw (!caseSensitive) text).map fun raw0 =>
+    let raw := applyDefaults raw0
+    let c1 := match dget? raw "__vars__" with
+      | some os => c.updateVarsOpt (sectionItems os)
+      | none => c
+    let ups := takeOk (fileUpdatesR (replaceTable raw) source allowNew raw)
+    let r := c1.updateMany false ups.1 []
+    (r.1, match r.2.1 with | some e => some (.cfg e) | none => ups.2.map .replace)
+
 end Midgard.Config
